@@ -107,7 +107,11 @@ def run(pid):
             ms, g0, nexp = vlib.gen_scenarios(module, module, consts, edges=True, timeout=3000)
             ms = [m for m in ms if any(o["op"] in want for o in m["ops"])]
             mcfg = dict(primary="mh", bits=8, il=il, pl=pl, imm=False, keys=mkeys, vals=["empty", "b5"], proj=True, probe="end", cmp=(pid == "C02"))
-            msc = [{"cfg": mcfg, "ops": [dict(o, v=(1 if o.get("vlen") == 0 else 2)) if o["op"] == "put" else o for o in m["ops"]]} for m in ms]
+            # (C02, quick tier: the comparison of both recovery paths on copies of the directory - two extra opens per reopen -
+            # is made in every second history; the reopen itself and the model comparison happen in all)
+            mcfg2 = dict(mcfg, cmp=False)
+            msc = [{"cfg": mcfg if (thorough or i % 2 == 0) else mcfg2,
+                    "ops": [dict(o, v=(1 if o.get("vlen") == 0 else 2)) if o["op"] == "put" else o for o in m["ops"]]} for i, m in enumerate(ms)]
             vlib.log("%s: mechanism model, limits %d/%d, <= %d calls: %d states, %d transitions, %d maximal histories with %s" % (pid, pl, il, mc, g0.distinct, nexp, len(msc), "/".join(want)))
             for i in range(0, len(msc), 60000):
                 part = msc[i:i + 60000]
@@ -128,7 +132,7 @@ def run(pid):
         # the flush order, so it follows any recorded history, not only those of its own state graph
         if pid in ("C04", "C02"):
             w = ["put"] * 6 + ["rem"] * 2 + ["flush"] * 4 + ["idxgc"] * 3 + ["prigc"] * 2 + ["reopen"] * (1 if pid == "C04" else 4)
-            nw, dw = (3000, 80) if thorough else ((250, 50) if pid == "C04" else (120, 40))
+            nw, dw = (3000, 80) if thorough else ((150, 50) if pid == "C04" else (60, 40))
             kc = seqeng.kv_consts(3, w, dw, deadlines=(0, 0, 1, 2, 3, 5), lowuses=(0, 85, 101))
             hsw, rw = seqeng.gen_histories(kc, "sim", num=nw, seed=vlib.seed() + 57)
             rep.cov["transitions"] += rw.states
